@@ -223,6 +223,9 @@ class C17(Prop):
                            ('cagr', a['cagr'], js['cagr']), ('max drawdown vs performance', a['maxdd'], js['maxdd'])):
             if not ok(x, y, 1e-12):
                 F.append('tearsheet / JSON / performance disagree on %s: %s vs %s' % (name, x, y))
+        ru = a.get('reuse')
+        if ru and ru[0] != 'same':
+            F.append('statistics of a sub-period taken from an already analysed frame differ from those of the same equity values in a fresh frame: %s' % ru)
         pn = a.get('panel')
         if pn and 'err' in pn:
             F.append('the tearsheet text panel could not be rendered: %s' % pn['err'])
